@@ -197,6 +197,34 @@ pub fn run(tier: &str) -> i32 {
         phases.push(json!({"phase": "core builder reused / other setter orders", "executions": 32}));
     }
 
+    // phase 4b: key material rotated in place - one buffer holds the key bytes, is overwritten with the next
+    // key of the same length and used again (what a key-rotation routine does): every token must be the
+    // specification's token for the key that was in the buffer when it was made
+    {
+        let mut n = 0;
+        for p in Proto::ALL {
+            let al = reduced(p);
+            let pool = domains::key_pool(p);
+            let seed_v = if p.is_local() { al.seeds[1].clone() } else { vec![] };
+            let seed = if p.is_local() { Some(seed_v.as_slice()) } else { None };
+            let (f, a) = (Some("rotating".to_string()), if p.has_assertion() { Some("{\"assertion\":\"one\"}".to_string()) } else { None });
+            let m = "{\"data\":\"rotation\"}";
+            let Some(first) = pool.iter().find(|k| pool.iter().filter(|o| o.sk.len() == k.sk.len()).count() >= 2) else { continue };
+            let same_len: Vec<&crate::domains::KeyMat> = pool.iter().filter(|k| k.sk.len() == first.sk.len()).take(4).collect();
+            let mut buf = same_len[0].sk.clone();
+            // A, B, A, B: both directions of the change
+            for k in same_len.iter().chain(same_len.iter()) {
+                buf.copy_from_slice(&k.sk);
+                all.executions += 1;
+                n += 1;
+                if let Out::Ok(token) = adapter::core_issue(p, &buf, &seed_v, m, f.as_deref(), a.as_deref()) {
+                    emitted.push(Emitted { case: IssueCase::new(p, Layer::Core, k, seed, m, &f, &a), key_ref: k.secret_for_ref.clone(), token });
+                }
+            }
+        }
+        phases.push(json!({"phase": "key material rotated in place (same buffer, next key)", "executions": n}));
+    }
+
     // phase 5: nonce seeds (found by search with the reference, fixtures/ctr_wrap.json, re-verified here) whose
     // derived AES-CTR IV is within 64 blocks of a 2^32 wrap of its low word: a counter narrower than the
     // specification's 128 bits diverges inside a 1 025-byte message
